@@ -36,6 +36,10 @@ class HarnessError(Exception):
     """Something is wrong with the simulator itself (never a property violation)."""
 
 
+class SimInterrupt(KeyboardInterrupt):
+    """the user interrupts the process while the engine is checking (injected at the seam)"""
+
+
 class StepCapExceeded(Exception):
     """An operation issued more engine checks than the step cap: no progress."""
 
@@ -484,6 +488,11 @@ class SimSolver:
             env.trace("check", **ev)
             return _z3.unknown
 
+        if d.get("interrupt"):
+            env.fault_fired("interrupt")
+            ev["verdict"] = "interrupted"
+            env.trace("check", **ev)
+            raise SimInterrupt("interrupted during the engine check")
         steer = d.get("steer")
         live_objectives = self._kind == "optimize" and self._objectives
         r = None
